@@ -193,8 +193,14 @@ def collect(ctx, prim, label, cmd, outdir, rc, out):
         ctx.add_violation(v.get("what", ""), v.get("signature", f"C19:{prim}:?"),
                           {"seed": v.get("seed", res.get("seed")), "prim": prim, "config": label, "cmd": cmd,
                            "key_salt": res.get("key_salt"), "history_slice": v.get("slice")})
-    if int(res.get("progress", 0) or 0) == 0:
+    ops_, ok_ = int(res.get("ops", 0) or 0), int(res.get("ok_ops", 0) or 0)
+    if int(res.get("progress", 0) or 0) == 0 or ok_ * 20 < ops_:
+        # the servers are healthy (they answered the readiness probe and, in the cut runs, only single connections are cut): a client
+        # library that completes nothing — every call a transport error / timeout — cannot be judged by the history checker, and is
+        # certainly not "keeping its guarantees over TCP": the tie is broken, there is no history to show
         ctx.cov.setdefault("notes", []).append(f"{prim}/{label}: no completed acquire/release pair ({res.get('note', '')})")
+        ctx.broken.append({"kind": "tie", "name": f"client made no progress against healthy servers ({prim}, {label})",
+                           "detail": f"ops={ops_} ok={ok_} progress={res.get('progress')} errors={res.get('errors')} timeouts={res.get('timeouts')} no_reply={res.get('no_reply')}; {res.get('note', '')}"})
 
 
 def run_batch(ctx, jobs, wall_limit):
